@@ -136,7 +136,9 @@ bounded('C17',
 
 bounded('C12',
         'Two parts. Level A (pyvc, counted in coverage.obligations): on every path of all 12 wrappers the user function is entered with '
-        'the caller\'s own *args/**kwds, and __init__ selects simple_round(tol) by default and deep_round(tol) when deep. Bounded (not a '
+        'the caller\'s own *args/**kwds, and __init__ selects simple_round(tol) by default and deep_round(tol) when deep; the real simple_round body for every call shape with <=3 '
+        'positional and <=2 keyword arguments and symbolic values: rounded iff float, else the identical object, same shape, never raises '
+        '(810 obligation instances). Bounded (not a '
         'proof): simple/deep/shallow rounders and the key path of inf_cache/lru_cache/safe.lfu_cache/keygen against an independent '
         'oracle built on Python\'s round over nested argument structures (depth <=3, tol in {None,-1,0,1,2}): rounds like the oracle, '
         'never fails, never mutates its input, leaves non-float data intact, keys merge exactly the calls that round alike, the function '
